@@ -288,6 +288,22 @@ Definition mon_C12_step (step : nat) (o : val) (prev cur : obs) (t : track) : li
     ++ flat_map (fun e => refund_check step t prev cur e
                                        (Nat.eqb (length (filter (fun x => beqb (s_sender x) (s_sender e)) gone)) 1
                                         && Nat.eqb (length (tr_pending t)) 0)) gone
+    (* with no event applied in this block, the supply of each denom grows by exactly the refunds
+       that stay on the hub (hub-origin: to the sender; no refund chain: module account); a refund
+       that is re-sent to the originating chain is minted and burned again *)
+    ++ (if Nat.eqb (length (tr_pending t)) 0 then
+          flat_map (fun ti =>
+                      let d := ti_denom ti in
+                      let expect := zsum (map (fun e =>
+                                                 match id_to_token (tr_tokens t) (s_tid e), token_dec (tr_tokens t) (s_chain e) (s_ext e) with
+                                                 | Some ti', Some dec =>
+                                                     if beqb (ti_denom ti') d && (beqb (s_refund_chain e) b_hub || beqb (s_refund_chain e) [])
+                                                     then to_hub dec (s_token e + s_fee e + s_comm e) else 0
+                                                 | _, _ => 0 end) gone) in
+                      if obs_supply cur d - obs_supply prev d =? expect then []
+                      else [viol k_c12_amount step [VB d; VI (obs_supply cur d - obs_supply prev d); VI expect]])
+                   (tr_tokens t)
+        else [])
   else
     (* no other operation removes an unbatched entry except batching (then it is in a batch) *)
     [].
